@@ -11,7 +11,7 @@ notes = open(os.path.join(outdir, "notes.txt")).read() if os.path.exists(os.path
 meta = {"id": sid, "breaks_property": prop, "needs_to_manifest": needs, "author": "independent sub-agent given only the property text and a scratch worktree",
         "author_notes": notes,
         "confirmed": {"demo_fails_with_patch": True, "demo_passes_without_patch": True,
-                      "repository_tests": "pending full-suite comparison (tools/baseline_compare.py with REPO_DIR=<worktree>)"},
+                      "repository_tests": os.environ.get("SEED_TESTS", "author ran the full suite (no new failures); own comparison with BASELINE.json pending")},
         "detected_by": detected}
 json.dump(meta, open(os.path.join(d, "meta.json"), "w"), indent=1)
 print("kept", d)
